@@ -172,8 +172,32 @@ def run(ctx):
                 ctx.violation(f'many-dirs-{driver}-{len(dextra)}-peak.json', dict(directories=ndirs, driver=driver, peak=peak, bound=bound, correspondence='descriptor peak vs model bound with many non-default-mode directories'),
                               f'measured peak {peak} exceeds the model bound {bound} with {ndirs} non-default-mode directories ({driver}, {dextra})', no_input=True)
         subprocess.run(['rm', '-rf', root + '/S', root + '/D'])
+        # ---- many MULTI-BLOCK files (each cut into several block jobs) and ONE file of very many blocks: neither the number of such
+        # files nor the number of blocks of a file shows in the number of open descriptors
+        os.makedirs(root + '/S')
+        nmb = 800
+        for i in range(nmb):
+            open(f'{root}/S/m{i}', 'wb').write(b'%04d' % i * 10240)      # 40 KiB = 3 blocks of 16 KiB
+        for label, argv_, nexp in (('many-multi-block-files', ['-r', '--driver', 'parblock', '--workers', '4', '--block-size', '16KB', 'S', 'D'], nmb),
+                                   ('one-file-of-1500-blocks', ['--driver', 'parblock', '--workers', '4', '--block-size', '4KB', 'big', 'D'], 1)):
+            subprocess.run(['rm', '-rf', root + '/D'])
+            if nexp == 1:
+                open(root + '/big', 'wb').write(os.urandom(1500 * 4096))
+            r = scen.run_xcp(root, argv_, timeout=600, nofile=1024, trace=True)
+            peak = r.final.get('peak_fds', -1)
+            bound = 2 * (CAP + 4 + 1) + CONST
+            ncopied = sum(len(fs) for _, _, fs in os.walk(root + '/D')) if os.path.isdir(root + '/D') else int(os.path.isfile(root + '/D'))
+            ctx.count(f'{label}.exit.{r.cls}'); ctx.case((label,), True, sample=dict(shape=label, peak_descriptors=peak, model_bound=bound))
+            peaks[(label,)] = peak
+            if r.cls != '0' or ncopied != nexp:
+                ctx.violation(f'{label}.json', dict(argv=argv_, exit=r.cls, copied=ncopied, peak=peak, stderr=r.stderr[-300:]),
+                              f'C20: {label} under RLIMIT_NOFILE=1024 failed or is incomplete ({r.cls}, {ncopied} of {nexp} files, peak {peak}): {r.stderr.strip()[-100:]}')
+            elif peak > bound:
+                ctx.violation(f'{label}-peak.json', dict(argv=argv_, peak=peak, bound=bound, correspondence='descriptor peak vs model bound'),
+                              f'measured peak {peak} exceeds the model bound {bound} ({label})', no_input=True)
+        subprocess.run(['rm', '-rf', root + '/S', root + '/D', root + '/big'])
     ctx.cov['peaks'] = {str(k): v for k, v in peaks.items()}
-    ctx.cov['rule'] = 'trees of 400..3000 (thorough: ..20000) small files x driver x workers x {no stall, every copy_file_range stalled}; RLIMIT_NOFILE=1024; a tree 1100 directories deep; 700 (thorough 3000) sparse files with stalled pool threads; 1200 files with every fchmod failing; 1200 directories with non-default modes, also with --fsync; -L and --ownership on the 1200/3000-file trees; 120 source operands under RLIMIT_NOFILE=48 with slow directory reads. distinct = distinct (files, workers, driver, stall)'
+    ctx.cov['rule'] = '800 files of 3 blocks each and one file of 1500 blocks (parblock); trees of 400..3000 (thorough: ..20000) small files x driver x workers x {no stall, every copy_file_range stalled}; RLIMIT_NOFILE=1024; a tree 1100 directories deep; 700 (thorough 3000) sparse files with stalled pool threads; 1200 files with every fchmod failing; 1200 directories with non-default modes, also with --fsync; -L and --ownership on the 1200/3000-file trees; 120 source operands under RLIMIT_NOFILE=48 with slow directory reads. distinct = distinct (files, workers, driver, stall)'
     ctx.assumptions += ['descriptors = 2 per open CopyHandle + a constant (stdio, directory handles); crossbeam/threadpool internals hold no descriptors']
 
 
